@@ -87,6 +87,7 @@ SurrogatesIn(lo, hi) == Max2(0, Min2(hi, 57343) - Max2(lo, 55296) + 1)
 FactsOK ==
   /\ \A i \in DOMAIN Facts.literals : Facts.literals[i].members = << Facts.literals[i].cp >>   \* a literal matches only itself
   /\ SetOf(Facts.dot_complement) = {10, 13}                         \* . is everything except \n and \r
+  /\ SetOf(Facts.dot_top_complement) = {10, 13}                     \* ... also outside brackets
   /\ SetOf(Facts.digit_ascii) = 48..57
   /\ SetOf(Facts.space_ascii) = {9, 10, 11, 12, 13, 32}
   /\ SetOf(Facts.word_ascii) = (48..57) \cup (65..90) \cup (97..122) \cup {95}
